@@ -11,7 +11,7 @@
   `Variant.fixed` is the repaired code (D31 defaults kept, D32 uncompressed payload copied at
   hand-over, D33 queue drained on stop); `Variant.asFound` is the code as found and carries the
   `finding_*` witnesses; `Variant.returnOnError` is the seeded regression "sendAndClear returns when
-  SendFlush fails".  Theorems quantified over `v` need `hr : v.resetOnError = true` (true for
+  SendFlush fails".  Theorems quantified over `v` need `hr : v.sound = true` (errors are logged and the batch reset anyway; the count follows the write; true for
   `fixed` and `asFound` by `rfl`): the code logs a transmission error and resets the batch anyway.
 
   Every theorem about a fresh sender quantifies over `ans`, the client's answers to the hand-overs
@@ -32,47 +32,63 @@ namespace C16
 open ZipSender
 open Prim (encMany)
 
-variable {ρ : Type} (v : Variant) (Z : Zip) (C : Codec ρ) (hr : v.resetOnError = true)
+variable {ρ : Type} (v : Variant) (Z : Zip) (C : Codec ρ) (hr : v.sound = true)
 
-example : Variant.fixed.resetOnError = true ∧ Variant.asFound.resetOnError = true := ⟨rfl, rfl⟩
+example : Variant.fixed.sound = true ∧ Variant.asFound.sound = true := ⟨rfl, rfl⟩
 
 /-! ### every record exactly once, in order -/
 
 include hr in
-/-- For every history from a fresh sender and every behaviour `ans` of the client: the queue is
-    FIFO and loses nothing it accepted (`deq ++ queue = accepted`), and the records in the emitted
-    batches followed by the batch under construction are an order-preserving merge of what the loop
-    dequeued and what was passed to `Append` directly — nothing lost, duplicated or reordered. -/
+/-- For every history from a fresh sender, every behaviour `ans` of the client and whichever
+    records fail to serialise (`C.fails`: `Append` recovers from the panic and drops them): the queue
+    is FIFO and loses nothing it accepted (`deq ++ queue = accepted`); `fed`, the records that reached
+    `Append`, is an order-preserving merge of what the loop dequeued and what was appended directly;
+    and the emitted batches followed by the batch under construction are exactly the serialisable
+    records of `fed` — nothing lost, duplicated or reordered, and a dropped record leaves no trace. -/
 theorem exactly_once_in_order (st : Settings) (ans : List Bool) (h : List (In ρ)) :
-    ∃ deq, deq ++ (final v Z C (init st ans) h).queue = accepted v Z C (init st ans) h ∧
-      Interleave deq (directAppends h)
-        (sharedRecs (emitted v Z C (init st ans) h) ++ (final v Z C (init st ans) h).buf.reverse) := by
+    ∃ deq fed, deq ++ (final v Z C (init st ans) h).queue = accepted v Z C (init st ans) h ∧
+      Interleave deq (directAppends h) fed ∧
+      sharedRecs (emitted v Z C (init st ans) h) ++ (final v Z C (init st ans) h).buf.reverse = good C fed := by
   obtain ⟨deq, fed, h1, h2, h3⟩ := history_inv v Z C h hr (init st ans)
-  refine ⟨deq, by simpa [init] using h1, ?_⟩
-  have : sharedRecs (emitted v Z C (init st ans) h) ++ (final v Z C (init st ans) h).buf.reverse = fed := by
-    simpa [init] using h3
-  rw [this]; exact h2
+  exact ⟨deq, fed, by simpa [init] using h1, h2, by simpa [init] using h3⟩
 
 include hr in
-/-- queue path alone (the sender used through `Add` only):
-    emitted ++ buffered ++ queued = accepted, as lists -/
+/-- queue path alone (the sender used through `Add` only): emitted ++ buffered ++ queued =
+    accepted, as lists, restricted to the records that serialise -/
 theorem exactly_once_queue_path (st : Settings) (ans : List Bool) (h : List (In ρ)) (hq : directAppends h = []) :
     sharedRecs (emitted v Z C (init st ans) h) ++ (final v Z C (init st ans) h).buf.reverse
-      ++ (final v Z C (init st ans) h).queue = accepted v Z C (init st ans) h := by
-  obtain ⟨deq, h1, h2⟩ := exactly_once_in_order v Z C hr st ans h
+      ++ good C (final v Z C (init st ans) h).queue = good C (accepted v Z C (init st ans) h) := by
+  obtain ⟨deq, fed, h1, h2, h3⟩ := exactly_once_in_order v Z C hr st ans h
   rw [hq] at h2
-  rw [h2.nil_right, h1]
+  rw [h3, h2.nil_right, ← good_append, h1]
 
 include hr in
-/-- `Append` path alone (the sender used without its queue): emitted ++ buffered = appended -/
+/-- `Append` path alone (the sender used without its queue): emitted ++ buffered = the
+    serialisable ones of the appended records -/
 theorem exactly_once_append_path (st : Settings) (ans : List Bool) (h : List (In ρ))
     (hq : accepted v Z C (init st ans) h = []) :
-    sharedRecs (emitted v Z C (init st ans) h) ++ (final v Z C (init st ans) h).buf.reverse = directAppends h := by
-  obtain ⟨deq, h1, h2⟩ := exactly_once_in_order v Z C hr st ans h
+    sharedRecs (emitted v Z C (init st ans) h) ++ (final v Z C (init st ans) h).buf.reverse
+      = good C (directAppends h) := by
+  obtain ⟨deq, fed, h1, h2, h3⟩ := exactly_once_in_order v Z C hr st ans h
   rw [hq] at h1
   have : deq = [] := (List.append_eq_nil_iff.mp h1).1
   rw [this] at h2
-  exact h2.nil_left
+  rw [h3, h2.nil_left]
+
+include hr in
+/-- **a failing append is a no-op**: a record whose serialisation panics (nil Tags, nil pack, an
+    element of the wrong type on the queue) leaves the batch — buffer, count, first time — exactly as
+    it was and hands nothing over -/
+theorem append_fail_noop (s : State ρ) (r : ρ) (hf : C.fails r = true) : appendRec v Z C s r = (s, []) :=
+  ZipSender.append_fail_noop v Z C s r hr hf
+
+/-- the regression "packCount += 1 before WritePack" (seeded, not in the code): the dropped record is
+    counted; here it was alone in its batch, the empty buffer is not flushed, and the surplus leaks
+    into the next pack, whose count (2) exceeds its records (1) -/
+theorem finding_count_first_miscounts :
+    (emitted .countFirst ⟨fun b => 31 :: b⟩ (⟨(·.2), (·.1), fun r => r.2.isEmpty⟩ : Codec (Int × Bytes)) (init defaults)
+      [.append (1000, []), .step, .append (1001, [7]), .step]).map (fun p => (p.count, p.recs.length)) = [(2, 1)] := by
+  decide
 
 include hr in
 /-- `SendDirect`: the packs it hands over hold exactly its arguments, in order -/
@@ -80,11 +96,12 @@ theorem exactly_once_direct (hne : ∀ r, C.enc r ≠ []) (s : State ρ) (h : Li
     directRecs (emitted v Z C s h) = directSent h :=
   history_direct v Z C hne h hr s
 
-/-- once the (repaired) sender is stopped, everything accepted or appended before has been emitted -/
+/-- once the (repaired) sender is stopped, every serialisable record accepted or appended before
+    has been emitted: the emitted records are the good ones of a merge of the two streams -/
 theorem all_emitted_at_stop (hne : ∀ r, C.enc r ≠ []) (st : Settings) (ans : List Bool) (h : List (In ρ))
     (hs : (final .fixed Z C (init st ans) h).stopped = false) :
-    Interleave (accepted .fixed Z C (init st ans) (h ++ [.stop])) (directAppends h)
-      (sharedRecs (emitted .fixed Z C (init st ans) (h ++ [.stop]))) :=
+    ∃ fed, Interleave (accepted .fixed Z C (init st ans) (h ++ [.stop])) (directAppends h) fed ∧
+      sharedRecs (emitted .fixed Z C (init st ans) (h ++ [.stop])) = good C fed :=
   ZipSender.all_emitted_at_stop .fixed Z C rfl rfl hne st ans h hs
 
 /-! ### acceptance is the C11 queue's answer -/
@@ -111,7 +128,7 @@ include hr in
 theorem exactly_once_accepted_by_queue (key : ρ → Nat) (st : Settings) (ans : List Bool) (h : List (In ρ))
     (hq : directAppends h = []) :
     sharedRecs (emitted v Z C (init st ans) h) ++ (final v Z C (init st ans) h).buf.reverse
-      ++ (final v Z C (init st ans) h).queue = acceptedQ key v Z C (init st ans) h := by
+      ++ good C (final v Z C (init st ans) h).queue = good C (acceptedQ key v Z C (init st ans) h) := by
   rw [acceptedQ_eq]; exact exactly_once_queue_path v Z C hr st ans h hq
 
 /-! ### per pack: count, payload, compression flag -/
@@ -137,7 +154,7 @@ theorem decodable (U : Unzip Z) (D : Decoder C) (st : Settings) (ans : List Bool
     code to that reader, every pack's payload — decompressed when flagged — reads back, with
     `readPack` `count` times, as the carried fields of exactly its records.  The only assumption
     left is `Unzip` (gzip). -/
-theorem decodable_logsink (hr : v.resetOnError = true) (U : Unzip Z) (fac : Packs.Factory) (hf : LogSink.Fac fac)
+theorem decodable_logsink (hr : v.sound = true) (U : Unzip Z) (fac : Packs.Factory) (hf : LogSink.Fac fac)
     (st : Settings) (ans : List Bool) (h : List (In Layout.Rec)) :
     ∀ p ∈ emitted v Z LogSink.codec (init st ans) h, (∀ x ∈ p.recs, LogSink.WFRec x) →
       decodePack U (LogSink.decoder fac hf) p = some (p.recs.map (fun x => (LogSink.pv x).carried), []) :=
@@ -167,20 +184,20 @@ theorem zipped_iff_const (st : Settings) (ans : List Bool) (h : List (In ρ)) (h
 include hr in
 /-- `Append`: the batch is flushed as soon as the buffer size in force is reached or the
     record is at least the waiting time in force younger than the first one of the batch -/
-theorem flush_on_append (s : State ρ) (r : ρ)
+theorem flush_on_append (s : State ρ) (r : ρ) (hok : C.fails r = false)
     (hm : s.settings.maxBuf ≤ ((s.bufLen + (C.enc r).length : Nat) : Int) ∨
           (s.firstTime ≠ 0 ∧ s.settings.maxWait ≤ C.time r - s.firstTime)) :
     (appendRec v Z C s r).1.bufLen = 0 ∧
     (0 < s.bufLen + (C.enc r).length →
       (appendRec v Z C s r).1.buf = [] ∧ (appendRec v Z C s r).2.map (·.recs) = [s.buf.reverse ++ [r]]) :=
-  ⟨append_flushes v Z C s r hr hm, append_flushes_pack v Z C s r hr hm⟩
+  ⟨append_flushes v Z C s r hr hok hm, append_flushes_pack v Z C s r hr hok hm⟩
 
 /-- … and only then: otherwise the record is buffered and nothing is handed over -/
-theorem no_flush_below_limits (s : State ρ) (r : ρ)
+theorem no_flush_below_limits (s : State ρ) (r : ρ) (hok : C.fails r = false)
     (hm : ¬ (s.settings.maxBuf ≤ ((s.bufLen + (C.enc r).length : Nat) : Int) ∨
           (s.firstTime ≠ 0 ∧ s.settings.maxWait ≤ C.time r - s.firstTime))) :
     (appendRec v Z C s r).2 = [] ∧ (appendRec v Z C s r).1.buf = r :: s.buf :=
-  append_buffers v Z C s r hm
+  append_buffers v Z C s r hok hm
 
 include hr in
 /-- the idle timeout of the queue flushes the batch -/
@@ -213,7 +230,7 @@ theorem hand_over_final (st : Settings) (a a' : List Bool) (h : List (In ρ)) :
 /-- the regression "return before the reset when SendFlush fails" (seeded, not in the code):
     the batch whose hand-over failed is handed over a second time inside the next pack -/
 theorem finding_return_on_error_duplicates :
-    sharedRecs (emitted .returnOnError ⟨fun b => 31 :: b⟩ (⟨(·.2), (·.1)⟩ : Codec (Int × Bytes)) (init defaults [false])
+    sharedRecs (emitted .returnOnError ⟨fun b => 31 :: b⟩ (⟨(·.2), (·.1), fun _ => false⟩ : Codec (Int × Bytes)) (init defaults [false])
       [.append (1000, [1]), .step, .append (1001, [2]), .step]) = [(1000, [1]), (1000, [1]), (1001, [2])] := by
   decide
 
@@ -258,8 +275,8 @@ include hr in
 /-- exactly once and in order, counts, over the schedules of the loop itself -/
 theorem loop_exactly_once (st : Settings) (ans : List Bool) (as : List (Act ρ)) :
     sharedRecs (lrun v Z C (linit st ans) as).2 ++ (lrun v Z C (linit st ans) as).1.core.buf.reverse
-      ++ (lrun v Z C (linit st ans) as).1.core.queue
-      = accepted v Z C (init st ans) (absHist v Z C (linit st ans) as) ∧
+      ++ good C (lrun v Z C (linit st ans) as).1.core.queue
+      = good C (accepted v Z C (init st ans) (absHist v Z C (linit st ans) as)) ∧
     ∀ p ∈ (lrun v Z C (linit st ans) as).2, p.count = p.recs.length := by
   obtain ⟨h1, h2⟩ := loop_refines v Z C hr st ans as
   rw [h1, h2]
@@ -350,7 +367,9 @@ theorem settings_stable (s : State ρ) (h : List (In ρ)) (hc : ∀ i ∈ h, isC
 
   concrete instance: a record is (time, encoded bytes); gzip is modelled by prefixing a byte -/
 
-def xC : Codec (Int × Bytes) := ⟨(·.2), (·.1)⟩
+def xC : Codec (Int × Bytes) := ⟨(·.2), (·.1), fun _ => false⟩
+/-- the same, where a record without bytes stands for one that cannot be serialised -/
+def fC : Codec (Int × Bytes) := ⟨(·.2), (·.1), fun r => r.2.isEmpty⟩
 def xZ : Zip := ⟨fun b => 31 :: b⟩
 def xU : Unzip xZ := ⟨fun b => b.tail?, fun _ => rfl⟩
 
@@ -413,7 +432,7 @@ theorem fixed_D33 :
 /-! ### non-vacuity -/
 
 /-- a record codec satisfying the `Decoder` hypothesis: 8-byte time, then a length-prefixed blob -/
-def yC : Codec (Int × Bytes) := ⟨fun r => Prim.encI 8 r.1 ++ Prim.encBlob r.2, (·.1)⟩
+def yC : Codec (Int × Bytes) := ⟨fun r => Prim.encI 8 r.1 ++ Prim.encBlob r.2, (·.1), fun _ => false⟩
 
 def yD : Decoder yC :=
   Decoder.ofP (P.bind (Prim.rdI 8) (fun t => P.bind Prim.decBlob (fun b => .pure (t, b))))
@@ -455,6 +474,14 @@ example : yD.wf (1700000000000, [1, 2, 3]) := by
 example (st : Settings) (ans : List Bool) (h : List (In Layout.Rec)) :=
   decodable_logsink .fixed xZ rfl xU LogSink.fac0 LogSink.fac0_ok st ans h
 
+/-- unserialisable records at every position of a batch (first, middle, last, alone, two in a row,
+    right before a size flush and before the stop): counts match and only the good records come out -/
+example : (emitted .fixed xZ fC (init ⟨5000, 1000, 4, 3⟩)
+      [.add (1, []), .add (2, [1]), .add (3, []), .add (4, [2]), .add (5, []), .step, .step, .step, .step, .step, .step,
+       .add (6, []), .step, .step, .append (7, []), .append (8, []), .append (9, [3]), .add (10, []), .append (11, [4, 5, 6]),
+       .add (12, [7]), .add (13, []), .stop]).map (fun p => (p.count, p.recs.map (·.1))) =
+    [(2, [2, 4]), (2, [9, 11]), (1, [12])] := by decide
+
 /-- a faulting client on a concrete history: every hand-over answered with an error, same packs -/
 example : (emitted .fixed xZ xC (init ⟨5000, 1000, 5, 3⟩ [false, false, false, false, false, false]) demo).map (·.recs) =
     (emitted .fixed xZ xC (init ⟨5000, 1000, 5, 3⟩) demo).map (·.recs) := by decide
@@ -468,7 +495,7 @@ example : ((lrun .fixed xZ xC (linit ⟨5000, 1000, 100, 3⟩)
 
 section
 open Layout Packs
-/-- a LogSinkPack meeting the writer's guards `LogSink.WFRec` (tags present, no fields) -/
+/-- a LogSinkPack (tags present, no fields) -/
 def demoLS : Layout.Rec := fun k =>
   if k = "Pcode" then .int 7 else if k = "Oid" then .int 31 else if k = "Time" then .int 1700000000000
   else if k = "Category" then .bytes [99, 97, 116] else if k = "TagHash" then .int 0
@@ -476,20 +503,12 @@ def demoLS : Layout.Rec := fun k =>
   else if k = "Content" then .bytes [104, 105] else if k = "Fields?" then .int 0
   else if k = "Fields" then .value (.map []) else .int 0
 
-example : LogSink.WFRec demoLS := by
-  unfold LogSink.WFRec Packs.Hand.LogSinkPack.w
-  simp only [L.WF]
-  refine ⟨?_, ?_, ?_, rfl, ?_, ?_, ⟨?_, _, rfl⟩, rfl, ?_, ?_, ?_, rfl, ?_, trivial⟩
-  · show Layout.Hdr.WF ⟨7, 31, 0, 0, 1700000000000⟩; decide
-  · show (0 : Int) ≤ 0 ∧ (0 : Int) < 256; decide
-  · show [99, 97, 116].length < 2147483648; decide
-  · show Prim.inRange 8 0; decide
-  · show Prim.inRange 8 0; decide
-  · show Value.WFV (.map [([107], .text [118])]); decide
-  · show Prim.inRange 8 1; decide
-  · show Prim.inRange 8 1; decide
-  · show [104, 105].length < 2147483648; decide
-  · intro h; exact absurd h (by decide)
+/-- on a concrete LogSinkPack the decoder reads back what the codec wrote (type code 0x170a) and
+    leaves what follows; the bytes start `17 0a` (type code), then the short header -/
+example : ((LogSink.decoder LogSink.fac0 LogSink.fac0_ok).dec (LogSink.codec.enc demoLS ++ [42])).map (fun x => (x.1.1, x.2)) =
+    some (5898, [42]) := by decide +kernel
+
+example : (LogSink.codec.enc demoLS).take 8 = [23, 10, 1, 7, 0, 0, 0, 31] := by decide +kernel
 
 end
 
